@@ -396,7 +396,7 @@ var keywords = map[string]bool{
 	"package": true, "sort": true, "spec": true, "macro": true, "axiom": true, "lemma": true,
 	"ghost": true, "func": true, "iface": true, "property": true, "requires": true, "ensures": true,
 	"invariant": true, "modifies": true, "pure": true, "trusted": true, "aux": true, "inline": true,
-	"nobody": true, "replay": true, "reveal": true, "auto": true, "loopinv": true, "writes": true, "const": true, "import": true, "fresh": true, "opt": true,
+	"nobody": true, "replay": true, "reveal": true, "auto": true, "loopinv": true, "writes": true, "const": true, "import": true, "fresh": true, "opt": true, "induct": true, "counter": true, "okcounter": true,
 }
 
 type directive struct {
@@ -485,6 +485,20 @@ func ParseFile(path string, pkg string) (*File, error) {
 				f.Ghosts = append(f.Ghosts, Var{parts[0], srt})
 			}
 			cur = nil
+		case "counter", "okcounter":
+			// counter <ghost> <func key>: an Int ghost bumped before every call of the function
+			// okcounter <ghost> <func key>: bumped after the call iff its error result is nil
+			parts := strings.SplitN(d.text, " ", 2)
+			if len(parts) != 2 {
+				return nil, fail(d, fmt.Errorf("want: counter <ghost> <pkgpath::Func | Func>"))
+			}
+			fk := strings.TrimSpace(parts[1])
+			if !strings.Contains(fk, "::") {
+				fk = f.Pkg + "::" + fk
+			}
+			f.Ghosts = append(f.Ghosts, Var{parts[0], "Int"})
+			f.Counters = append(f.Counters, Counter{Ghost: parts[0], Func: fk, OnOK: d.kw == "okcounter"})
+			cur = nil
 		case "spec", "macro":
 			sf, err := parseSpecFunc(d.text, d.kw == "macro")
 			if err != nil {
@@ -506,6 +520,21 @@ func ParseFile(path string, pkg string) (*File, error) {
 				f.Lemmas = append(f.Lemmas, cl)
 			}
 			cur = nil
+		case "induct":
+			// induct v > low: the preceding lemma is proved by induction on v
+			if len(f.Lemmas) == 0 {
+				return nil, fail(d, fmt.Errorf("induct without a preceding lemma"))
+			}
+			parts := strings.SplitN(d.text, ">", 2)
+			if len(parts) != 2 {
+				return nil, fail(d, fmt.Errorf("want: induct v > low"))
+			}
+			low, err := ParseExpr(parts[1])
+			if err != nil {
+				return nil, fail(d, err)
+			}
+			l := f.Lemmas[len(f.Lemmas)-1]
+			l.InductVar, l.InductLow = strings.TrimSpace(parts[0]), low
 		case "auto":
 			// auto <prop> modifies <ghost>: template contract applied to every
 			// function of the package that may modify <ghost> and returns error
